@@ -234,6 +234,13 @@ class TupleVariation(object):
         if numPoints < 0x80:
             result.append(numPoints)
         else:
+            if numPoints > POINT_RUN_COUNT_MASK << 8 | 0xFF:
+                # The count has 15 bits; a larger one would be read back as a
+                # different number (0x8000 points even as "all points").
+                raise ValueError(
+                    "cannot pack %d point numbers (at most %d)"
+                    % (numPoints, POINT_RUN_COUNT_MASK << 8 | 0xFF)
+                )
             result.append((numPoints >> 8) | 0x80)
             result.append(numPoints & 0xFF)
 
